@@ -1,113 +1,130 @@
 (** C11 - compilation is a pure function of the design, independent of history.
 
-    Model: Models/Hist.v ([compile] = the set/restore discipline as coded, [compile_fixed] = with try/finally on
-    every exceptional exit).  The all-histories statements
-      C11_clean_invariant     : forall h, clean (run compile h)
-      C11_history_independent : forall h d, outcome (compile d (run compile h)) = outcome (compile d init)
-    are FALSE of the as-coded model (the [_refuted] theorems: vm_compute witnesses, each replayed against the real
-    compiler by harness/c11.py) and are proved for [compile_fixed]. *)
+    Model: Models/Hist.v.  [compile] is the CURRENT tree: the exits repaired by the fix: commits 73c9e08 72ebcaa
+    215d68c 5bdcba1 36732b7 restore their state; IrGenerator.returned_blocks and ir.Statement._current_frame still
+    leak on a rejection inside IR generation.  [compile_coded] is the tree before those commits (regressions),
+    [compile_fixed] a tree that restores the two scratch variables too.  The model is tied to /repo by harness/c11.py
+    (histories run in one interpreter, every global read back and compared inside Coq). *)
 From Coq Require Import List Bool Arith.
 Import ListNotations.
 From Cohdl Require Import Models.Hist Models.HistProofs.
 
-(** ** as coded: refuted *)
+(** ** the current tree: all histories, all designs of the model *)
 
-(** two witnesses: (i) StatemachineContext._singleton left set by a design rejected inside coroutine lowering,
-    every later coroutine design crashes; (ii) _block_stack left non-empty by a design rejected in a context,
-    the prefix table is no longer cleared and the second later compilation emits p0_1 instead of p0 *)
-Theorem C11_history_independent_refuted :
-  (exists h d, outcome_of compile d (run compile h) = Crashed SIr /\ outcome_of compile d init = Accepted [])
-  /\ (exists h d n1 n2, outcome_of compile d (run compile h) = Accepted n1 /\ outcome_of compile d init = Accepted n2
-                        /\ n1 <> n2).
-Proof. exact history_independent_refuted. Qed.
-Print Assumptions C11_history_independent_refuted.
+Theorem C11_history_independent :
+  forall h d, outcome_of compile d (run compile h) = outcome_of compile d init.
+Proof. exact history_independent. Qed.
+Print Assumptions C11_history_independent.
 
-Theorem C11_clean_invariant_refuted : exists h, cleanb (run compile h) = false.
+(** every outcome-relevant variable is back at its import-time value after any history
+    ([rclean]: all of [gstate] except the prefix table (not attached to a live object), the caches, and the two
+    variables of [C11_scratch_transparent]) *)
+Theorem C11_relevant_clean_invariant : forall h, rclean (run compile h).
+Proof. exact relevant_clean_invariant. Qed.
+Print Assumptions C11_relevant_clean_invariant.
+
+(** one step from ANY relevant-clean state (hypothesis satisfiable: [C11_relevant_clean_nonvacuous]) *)
+Theorem C11_relevant_clean_step :
+  forall d g, rclean g -> rclean (fst (compile d g)) /\ outcome_of compile d g = outcome_of compile d init.
+Proof. exact relevant_clean_step. Qed.
+Print Assumptions C11_relevant_clean_step.
+
+Example C11_relevant_clean_nonvacuous :
+  rclean init /\ rclean (run compile [W_sm; W_width; W_inwith; W_clk; W_arch])
+  /\ run compile [W_sm; W_width; W_inwith; W_clk; W_arch] <> init.
+Proof. repeat split; try (vm_compute; reflexivity). vm_compute. discriminate. Qed.
+Print Assumptions C11_relevant_clean_nonvacuous.
+
+(** the FULL-state invariant is false of the current tree: the witness leaves returned_blocks and _current_frame
+    rebound (and nothing else) *)
+Theorem C11_clean_invariant_refuted :
+  exists h, cleanb (run compile h) = false /\ rcleanb (run compile h) = true
+            /\ g_rb (run compile h) = true /\ g_fr (run compile h) = true.
 Proof. exact clean_invariant_refuted. Qed.
 Print Assumptions C11_clean_invariant_refuted.
 
-(** the individual mechanisms, on the design classes of the pool *)
-Theorem C11_refuted_statemachine_singleton :
-  outcome_of compile W_coro (run compile [W_sm]) = Crashed SIr /\ outcome_of compile W_coro init = Accepted [].
-Proof. exact refuted_statemachine. Qed.
-Print Assumptions C11_refuted_statemachine_singleton.
+(** ... and harmless: those two variables never change an outcome nor any other variable, whatever their value
+    (any discipline) - every compilation writes them before it reads them *)
+Theorem C11_scratch_transparent :
+  forall fx fi d g rb fr,
+    snd (compile_gen fx fi d (set_fr fr (set_rb rb g))) = snd (compile_gen fx fi d g)
+    /\ erase (fst (compile_gen fx fi d (set_fr fr (set_rb rb g)))) = erase (fst (compile_gen fx fi d g)).
+Proof. exact scratch_transparent. Qed.
+Print Assumptions C11_scratch_transparent.
 
-Theorem C11_refuted_block_stack :
-  outcome_of compile W_pfx (run compile [W_width; W_pfx]) = Accepted [[P 0; C 1]]
-  /\ outcome_of compile W_pfx init = Accepted [[P 0]].
-Proof. exact refuted_block_stack. Qed.
-Print Assumptions C11_refuted_block_stack.
-
-Theorem C11_refuted_prefix_scope :
-  outcome_of compile W_pfxarch (run compile [W_inwith]) = Accepted [[P 4; P 0]]
-  /\ outcome_of compile W_pfxarch (run compile [W_inwith; W_pfxarch]) = Crashed SArch
-  /\ outcome_of compile W_pfxarch init = Accepted [[P 0]].
-Proof. exact refuted_prefix_scope. Qed.
-Print Assumptions C11_refuted_prefix_scope.
-
-Theorem C11_refuted_current_context :
-  outcome_of compile W_needs (run compile [W_clk]) = Accepted [] /\ outcome_of compile W_needs init = Rejected SPrep.
-Proof. exact refuted_current_context. Qed.
-Print Assumptions C11_refuted_current_context.
-
-Theorem C11_refuted_stale_template :
-  outcome_of compile W_arch (run compile [W_arch]) = Accepted [] /\ outcome_of compile W_arch init = Rejected SArch.
-Proof. exact refuted_stale_template. Qed.
-Print Assumptions C11_refuted_stale_template.
-
-(** ** with the try/finally discipline: all histories *)
-
-Theorem C11_clean_invariant : forall h, clean (run compile_fixed h).
-Proof. exact clean_invariant_fixed. Qed.
-Print Assumptions C11_clean_invariant.
-
-Theorem C11_history_independent :
-  forall h d, outcome_of compile_fixed d (run compile_fixed h) = outcome_of compile_fixed d init.
-Proof. exact history_independent_fixed. Qed.
-Print Assumptions C11_history_independent.
-
-(** one step, from ANY clean state (hypothesis satisfiable: [init] is clean, and so is every reachable state) *)
-Theorem C11_clean_step :
-  forall d g, clean g -> clean (fst (compile_fixed d g)) /\ outcome_of compile_fixed d g = outcome_of compile_fixed d init.
-Proof. exact fixed_step. Qed.
-Print Assumptions C11_clean_step.
-
-Example C11_clean_step_nonvacuous : clean init /\ clean (run compile_fixed [W_sm; W_width; W_inwith; W_clk; W_arch]).
-Proof. split; vm_compute; reflexivity. Qed.
-Print Assumptions C11_clean_step_nonvacuous.
-
-(** non-vacuity of history independence: the outcomes it equates are not all the same, and rejected designs
-    of every poisoning class occur in the history *)
-Example C11_history_independent_nonvacuous :
-  outcome_of compile_fixed W_coro (run compile_fixed [W_sm; W_width; W_inwith; W_clk; W_arch]) = Accepted []
-  /\ outcome_of compile_fixed W_pfx (run compile_fixed [W_width; W_pfx]) = Accepted [[P 0]]
-  /\ outcome_of compile_fixed W_needs (run compile_fixed [W_clk]) = Rejected SPrep
-  /\ outcome_of compile_fixed W_arch (run compile_fixed [W_arch]) = Rejected SArch.
-Proof. vm_compute. repeat split; reflexivity. Qed.
-Print Assumptions C11_history_independent_nonvacuous.
-
-(** ** caches: the type caches / known-definition caches never change an outcome (either discipline), and the
-    rest of the state does not depend on them *)
+(** type caches / known-definition caches never change an outcome, and the rest of the state does not depend on them *)
 Theorem C11_caches_transparent :
-  forall fx d g c,
-    snd (compile_gen fx d (set_cache c g)) = snd (compile_gen fx d g)
-    /\ set_cache 0 (fst (compile_gen fx d (set_cache c g))) = set_cache 0 (fst (compile_gen fx d g)).
+  forall fx fi d g c,
+    snd (compile_gen fx fi d (set_cache c g)) = snd (compile_gen fx fi d g)
+    /\ set_cache 0 (fst (compile_gen fx fi d (set_cache c g))) = set_cache 0 (fst (compile_gen fx fi d g)).
 Proof. exact caches_transparent. Qed.
 Print Assumptions C11_caches_transparent.
 
-(** ** as coded, conditionally: from a clean state a design that is accepted, or rejected only by the checks
-    after IR generation / the back end, gets its specified outcome and leaves the state clean - only rejections
-    at architecture(), PrepareAst or IR generation can poison an interpreter.
-    (third hypothesis: the compilation does not crash on a name clash the design itself contains) *)
-Theorem C11_coded_harmless_preserves_clean :
-  forall d g, clean g -> harmless d = true -> (forall s, outcome_of compile d g <> Crashed s) ->
-    clean (fst (compile d g)) /\ outcome_of compile d g = outcome_of compile_fixed d init.
-Proof. exact coded_harmless_preserves_clean. Qed.
-Print Assumptions C11_coded_harmless_preserves_clean.
+(** restoring the two scratch variables as well would not change any outcome *)
+Theorem C11_current_equals_fixed_outcome :
+  forall h d, outcome_of compile d (run compile h) = outcome_of compile_fixed d (run compile_fixed h).
+Proof. exact current_equals_fixed_outcome. Qed.
+Print Assumptions C11_current_equals_fixed_outcome.
 
-Example C11_coded_harmless_nonvacuous :
-  clean init /\ harmless W_coro = true /\ harmless W_pfx = true
-  /\ (forall s, outcome_of compile W_coro init <> Crashed s)
-  /\ outcome_of compile W_coro init = Accepted [].
+(** non-vacuity of history independence: the histories contain a rejected design of every formerly poisoning class,
+    the equated outcomes are not all the same, and they are the outcomes a fresh interpreter gives
+    (these are the regression histories of harness/c11.py CORPUS) *)
+Example C11_current_regressions :
+  outcome_of compile W_coro (run compile [W_sm]) = Accepted []
+  /\ outcome_of compile W_pfx (run compile [W_width; W_pfx]) = Accepted [[P 0]]
+  /\ outcome_of compile W_pfxarch (run compile [W_inwith]) = Accepted [[P 0]]
+  /\ outcome_of compile W_pfxarch (run compile [W_inwith; W_pfxarch]) = Accepted [[P 0]]
+  /\ outcome_of compile W_needs (run compile [W_clk]) = Rejected SPrep
+  /\ outcome_of compile W_arch (run compile [W_arch]) = Rejected SArch.
+Proof. exact current_regressions. Qed.
+Print Assumptions C11_current_regressions.
+
+(** ** the tree before the fix: commits: the same histories poisoned the interpreter (why the model has the
+    try/finally discipline where it has it) *)
+
+Example C11_before_fixes_statemachine_singleton :
+  outcome_of compile_coded W_coro (run compile_coded [W_sm]) = Crashed SIr
+  /\ outcome_of compile_coded W_coro init = Accepted [].
+Proof. exact before_fixes_statemachine. Qed.
+Print Assumptions C11_before_fixes_statemachine_singleton.
+
+Example C11_before_fixes_block_stack :
+  outcome_of compile_coded W_pfx (run compile_coded [W_width; W_pfx]) = Accepted [[P 0; C 1]]
+  /\ outcome_of compile_coded W_pfx init = Accepted [[P 0]].
+Proof. exact before_fixes_block_stack. Qed.
+Print Assumptions C11_before_fixes_block_stack.
+
+Example C11_before_fixes_prefix_scope :
+  outcome_of compile_coded W_pfxarch (run compile_coded [W_inwith]) = Accepted [[P 4; P 0]]
+  /\ outcome_of compile_coded W_pfxarch (run compile_coded [W_inwith; W_pfxarch]) = Crashed SArch
+  /\ outcome_of compile_coded W_pfxarch init = Accepted [[P 0]].
+Proof. exact before_fixes_prefix_scope. Qed.
+Print Assumptions C11_before_fixes_prefix_scope.
+
+Example C11_before_fixes_current_context :
+  outcome_of compile_coded W_needs (run compile_coded [W_clk]) = Accepted []
+  /\ outcome_of compile_coded W_needs init = Rejected SPrep.
+Proof. exact before_fixes_current_context. Qed.
+Print Assumptions C11_before_fixes_current_context.
+
+Example C11_before_fixes_stale_template :
+  outcome_of compile_coded W_arch (run compile_coded [W_arch]) = Accepted []
+  /\ outcome_of compile_coded W_arch init = Rejected SArch.
+Proof. exact before_fixes_stale_template. Qed.
+Print Assumptions C11_before_fixes_stale_template.
+
+(** even then, from a relevant-clean state a design that is accepted, or rejected only by the checks after IR
+    generation / the back end, got its specified outcome and left the state relevant-clean
+    (third hypothesis: the compilation does not crash on a name clash the design itself contains) *)
+Theorem C11_before_fixes_harmless_preserves_clean :
+  forall d g, rclean g -> harmless d = true -> (forall s, outcome_of compile_coded d g <> Crashed s) ->
+    rclean (fst (compile_coded d g)) /\ outcome_of compile_coded d g = outcome_of compile d init.
+Proof. exact before_fixes_harmless_preserves_clean. Qed.
+Print Assumptions C11_before_fixes_harmless_preserves_clean.
+
+Example C11_before_fixes_harmless_nonvacuous :
+  rclean init /\ harmless W_coro = true /\ harmless W_pfx = true
+  /\ (forall s, outcome_of compile_coded W_coro init <> Crashed s)
+  /\ outcome_of compile_coded W_coro init = Accepted [].
 Proof. vm_compute. repeat split; try reflexivity. intros s H; discriminate H. Qed.
-Print Assumptions C11_coded_harmless_nonvacuous.
+Print Assumptions C11_before_fixes_harmless_nonvacuous.
